@@ -12,6 +12,16 @@ CHECKS = {
             "Generated-input search: thousands of structurally varied specs x points x interpolation codes x 4 backends x clipping x batching compared bin by bin with a name-keyed reference implementation of the HistFactory rate formula. Refutes index/mask/gather bookkeeping errors; does not prove absence beyond the explored sizes.",
             "Trusted: vlib/refmodel.py transcription of the rate formula; parameter layout as reported by the model (C12 checks its consistency); sizes <= 4 channels x 6 bins.",
             "DESIGN.md#c01"),
+    "C03": ("exploration",
+            "Hypothesis boundary-biased alphas + exhaustive breakpoint grid vs. independent scalar formulae (linear-solve coefficients), anchors, continuity across float neighbours, jax-autodiff C1/C2, fast-vs-slow differential, call-history independence",
+            "Generated-input search over (code, alpha0, histogram sets, alpha sets incl. extrapolation / breakpoints / float neighbours, call histories, backend x precision); every clause of the statement is its own executable sub-oracle. Dense sampling, not a proof over all real alpha.",
+            "Trusted: the scalar reference formulae in vlib/refmodel.py; jax autodiff for derivative continuity; 32-bit cases compare after rounding inputs to float32 with tolerance x 1e5.",
+            "DESIGN.md#c03"),
+    "C04": ("exploration",
+            "Hypothesis-generated argument vectors (tails, cancellation class, lambda=0/denormal, non-integer n) vs. 50-digit mpmath oracle on 4 backends x 2 precisions; exp/log and distribution-object consistency relations",
+            "Generated-input search with an exact-arithmetic oracle and a tolerance of 64 units of rounding of the terms involved; refutes accuracy loss anywhere in the sampled domain, does not prove it for all arguments.",
+            "Trusted: mpmath; accuracy of third-party special functions is inherited; denormal rates/counts may be flushed to zero by XLA/TF (accepted as the lambda=0 limit).",
+            "DESIGN.md#c04"),
 }
 
 NOT_YET = "check not built yet in this session (work in progress; the design in DESIGN.md section 5 applies)"
